@@ -1258,7 +1258,7 @@ func c10Term(idx int, c *c10Case, in, obs []Ev) string {
 func init() {
 	props["C10"] = func(ctx *Ctx) {
 		ctx.Header("TimerCorr")
-		ctx.Res.Rule = "case = (flavour of root scope, root prefix/tags, clock script, history of SubScope/Tagged/Timer/Record/report pass/Start/Stop/Histogram/NewCall/Exec calls); generated from the seed; clock script offsets taken from five bases (epoch, year 1, 2400, 1600, a monotonic time.Now() with a stepped wall clock), plus timers whose allocation the cached reporter refuses, instrumented calls with every kind of error value and overlapping executions of one Call, histories that close scopes, unscheduled concurrent Records on one timer, long histories (hundreds of Records on one or two timers) and concurrent cases (threads obtaining the same new timer and recording on their handles, with the schedule); non-trivial = at least one value reaches a timer (Record, Stop or Exec); distinct by hash of the case"
+		ctx.Res.Rule = "case = (flavour of root scope, root prefix/tags, clock script, history of SubScope/Tagged/Timer/Record/report pass/Start/Stop/Histogram/NewCall/Exec calls); generated from the seed; clock script offsets taken from five bases (epoch, year 1, 2400, 1600, a monotonic time.Now() with a stepped wall clock), plus names that equal other metrics' fully qualified names on prefixed and nested scopes, timers whose allocation the cached reporter refuses, instrumented calls with every kind of error value and overlapping executions of one Call, histories that close scopes, unscheduled concurrent Records on one timer, long histories (hundreds of Records on one or two timers) and concurrent cases (threads obtaining the same new timer and recording on their handles, with the schedule); non-trivial = at least one value reaches a timer (Record, Stop or Exec); distinct by hash of the case"
 		fl := []string{"plain", "cached", "test", "both"}
 		one := func(c *c10Case) {
 			if c.Wall > 0 {
@@ -1339,6 +1339,10 @@ func init() {
 			c := c
 			one(&c)
 		}
+		for _, c := range c10FixedClash() {
+			c := c
+			one(&c)
+		}
 		for _, c := range c10FixedClose() {
 			c := c
 			one(&c)
@@ -1366,6 +1370,12 @@ func init() {
 		// Timer.Record(d) results in exactly one timer delivery" on whatever handle a later Timer(name) returns
 		for i := 0; i < ctx.N(100, 1500); i++ {
 			c := c10GenRefuse(ctx.R, i)
+			one(&c)
+		}
+		// names that look like other timers' fully qualified names: "carrying ... the scope's name": a
+		// timer is identified by its scope and its name in that scope, whatever the name looks like
+		for i := 0; i < ctx.N(120, 2000); i++ {
+			c := c10GenClash(ctx.R, i)
 			one(&c)
 		}
 		// scopes that get closed: "Each Timer.Record(d) results in exactly one timer delivery" also on
@@ -1660,6 +1670,140 @@ func c10FixedClock() []c10Case {
 	}
 	for _, f := range []int{1, 3} {
 		out = append(out, c10Case{Flavour: f, Prefix: "p", Clock: []int64{100, 175}, Ops: refuse})
+	}
+	return out
+}
+
+// c10GenClash: scopes with prefixes, nested sub-scopes, and timers (and
+// duration histograms) whose name in their scope is the fully qualified name
+// of another metric - mostly of one obtained from the same scope just before -
+// or a suffix of it; Records / stopwatches through every handle.
+func c10GenClash(r *Rng, i int) c10Case {
+	c := c10Case{Flavour: []int{0, 1, 2, 3}[i%4]}
+	c.Prefix = B(r.Pick([]string{"p", "svc", "", "p"}))
+	c.Tags = c10Tags(r, 1)
+	for j, t := 0, int64(r.Intn(1000)); j < 30; j++ {
+		c.Clock = append(c.Clock, t)
+		t += int64(r.Intn(1000000))
+	}
+	c.Base = c10PickBase(r, c.Clock)
+	clock := c10ClockAt(c.Clock)
+	bk := newBook(&c)
+	segs := []string{"t", "http", "rpc", "p", "svc"}
+	perScope := map[int][]string{} // scope handle -> fully qualified names of the metrics obtained from it
+	var all []string
+	name := func(h int) string {
+		switch x := r.Intn(100); {
+		case x < 45 && len(perScope[h]) > 0:
+			return perScope[h][len(perScope[h])-1] // the one obtained from this scope last
+		case x < 60 && len(perScope[h]) > 0:
+			return r.Pick(perScope[h])
+		case x < 70 && len(all) > 0:
+			fq := r.Pick(all)
+			if k := strings.Index(fq, "."); k >= 0 && r.Bool() {
+				return fq[k+1:]
+			}
+			return fq
+		}
+		return r.Pick(segs)
+	}
+	at := 0
+	for n := r.Range(6, 16); n > 0; n-- {
+		var o c10Op
+		switch x := r.Intn(100); {
+		case x < 12:
+			o = c10Op{Op: "sub", H: r.Intn(len(bk.scopes)), Name: B(r.Pick(segs))}
+		case x < 16:
+			o = c10Op{Op: "tag", H: r.Intn(len(bk.scopes)), Tags: c10Tags(r, 1)}
+		case x < 50 || len(bk.timers) == 0:
+			h := r.Intn(len(bk.scopes))
+			o = c10Op{Op: "timer", H: h, Name: B(name(h))}
+			m := bk.scopes[h].metric(string(o.Name))
+			if c.Flavour == 2 && bk.collides(0, m) {
+				o = c10Op{Op: "pass"}
+			} else {
+				perScope[h] = append(perScope[h], m.strs[0])
+				all = append(all, m.strs[0])
+			}
+		case x < 58:
+			h := r.Intn(len(bk.scopes))
+			o = c10Op{Op: "hist", H: h, Name: B(name(h)), Spec: []int64{1000, 1000000}}
+			m := bk.scopes[h].metric(string(o.Name))
+			if c.Flavour == 2 && bk.collides(2, m) {
+				o = c10Op{Op: "pass"}
+			} else {
+				perScope[h] = append(perScope[h], m.strs[0])
+				all = append(all, m.strs[0])
+			}
+		case x < 80:
+			o = c10Op{Op: "rec", H: r.Intn(len(bk.timers)), D: int64(1 + r.Intn(1000))}
+		case x < 86:
+			o = c10Op{Op: "start", H: r.Intn(len(bk.timers))}
+		case x < 90 && len(bk.hists) > 0:
+			o = c10Op{Op: "hstart", H: r.Intn(len(bk.hists))}
+		case x < 96 && len(bk.sws) > 0:
+			o = c10Op{Op: "stop", H: r.Intn(len(bk.sws))}
+		default:
+			o = c10Op{Op: "pass"}
+		}
+		at += bk.apply(o, clock, at)
+		c.Ops = append(c.Ops, o)
+	}
+	for h := range bk.timers { // a value through every handle
+		o := c10Op{Op: "rec", H: h, D: int64(5000 + h)}
+		at += bk.apply(o, clock, at)
+		c.Ops = append(c.Ops, o)
+	}
+	c.Ops = append(c.Ops, c10Op{Op: "pass"})
+	return c
+}
+
+// c10FixedClash: "t" then "p.t" on a root with prefix p (and the other way
+// round), "rpc" then "http.rpc" on SubScope("http"), nested sub-scopes, and the
+// same for duration histograms and their stopwatches.
+func c10FixedClash() []c10Case {
+	ops := func(first, second string) []c10Op {
+		return []c10Op{
+			{Op: "timer", H: 0, Name: B(first)},
+			{Op: "timer", H: 0, Name: B(second)},
+			{Op: "rec", H: 0, D: 1},
+			{Op: "rec", H: 1, D: 2},
+			{Op: "timer", H: 0, Name: B(first)},
+			{Op: "rec", H: 2, D: 3},
+			{Op: "start", H: 1},
+			{Op: "stop", H: 0},
+			{Op: "hist", H: 0, Name: B(first), Spec: []int64{10, 1000}},
+			{Op: "hist", H: 0, Name: B(second), Spec: []int64{10, 1000}},
+			{Op: "hstart", H: 1},
+			{Op: "hstart", H: 0},
+			{Op: "stop", H: 1},
+			{Op: "stop", H: 2},
+			{Op: "pass"},
+		}
+	}
+	sub := []c10Op{
+		{Op: "sub", H: 0, Name: "http"},
+		{Op: "timer", H: 1, Name: "rpc"},
+		{Op: "timer", H: 1, Name: "http.rpc"},
+		{Op: "rec", H: 1, D: 7},
+		{Op: "rec", H: 0, D: 8},
+		{Op: "sub", H: 1, Name: "http"},
+		{Op: "timer", H: 2, Name: "rpc"},
+		{Op: "timer", H: 2, Name: "http.http.rpc"},
+		{Op: "timer", H: 1, Name: "http.rpc"},
+		{Op: "rec", H: 3, D: 9},
+		{Op: "rec", H: 2, D: 10},
+		{Op: "rec", H: 4, D: 11},
+		{Op: "pass"},
+	}
+	clk := []int64{100, 150, 200, 500, 900, 1400}
+	var out []c10Case
+	for _, f := range []int{0, 1, 2, 3} {
+		out = append(out,
+			c10Case{Flavour: f, Prefix: "p", Clock: clk, Ops: ops("t", "p.t")},
+			c10Case{Flavour: f, Prefix: "p", Clock: clk, Ops: ops("p.t", "t")},
+			c10Case{Flavour: f, Prefix: "", Clock: clk, Ops: map[bool][]c10Op{false: sub, true: append(append([]c10Op{}, sub[:5]...), c10Op{Op: "pass"})}[f == 2]})
+		// (test scope: only the first sub-scope - two timers with the same name and tags share a snapshot entry)
 	}
 	return out
 }
